@@ -122,9 +122,13 @@ pub(crate) fn register<K>(name: K, actor: ActorCell) -> Result<(), ActorRegistry
 where
     K: Into<String>,
 {
+    #[cfg(slawlor_ractor_verif)]
+    crate::verif_hooks::point("registry.entry");
     match get_actor_registry().entry(name.into()) {
         Occupied(occupied) => Err(ActorRegistryErr::AlreadyRegistered(occupied.key().clone())),
         Vacant(vacancy) => {
+            #[cfg(slawlor_ractor_verif)]
+            crate::verif_hooks::point("registry.insert");
             vacancy.insert(actor);
             Ok(())
         }
@@ -137,6 +141,8 @@ where
     K: AsRef<str>,
 {
     if let Some(reg) = ACTOR_REGISTRY.get() {
+        #[cfg(slawlor_ractor_verif)]
+        crate::verif_hooks::point("registry.remove");
         let _ = reg.remove(name.as_ref());
     }
 }
@@ -152,6 +158,8 @@ where
     K: AsRef<str>,
 {
     let reg = get_actor_registry();
+    #[cfg(slawlor_ractor_verif)]
+    crate::verif_hooks::point("registry.get");
     reg.get(name.as_ref()).map(|v| v.value().clone())
 }
 
